@@ -487,10 +487,11 @@ Proof.
     assert (Hblk : src + size - base (ms_window ms2) <= CURRENT_MAX).
     { destruct Hcase as [[-> Hle]|[Hle _]]; [exact Hle|].
       pose proof (block_size_condition _ _ Hpo). lia. }
-    pose proof (search_effect_inv (h_params h1) ms2 (h_optFirst h1) src size Hinv2 ltac:(lia) Hblk) as Hs.
+    pose proof (search_effect_inv (h_params h1) (block_mode_dict_check ms2) (h_optFirst h1) src size Hinv2 ltac:(lia) Hblk) as Hs.
     cbv zeta in Hs.
-    destruct (block_search_effect (h_params h1) ms2 (h_optFirst h1) src size) as [ms3 first'] eqn:Es.
+    destruct (block_search_effect (h_params h1) (block_mode_dict_check ms2) (h_optFirst h1) src size) as [ms3 first'] eqn:Es.
     cbn [fst] in Hs. destruct Hs as (Hs1 & Hs2 & Hs3 & Hs4).
+    unfold block_mode_dict_check in Hs2; cbn [ms_window] in Hs2.
     cbn [h_ms h_params]. split.
     + split; [exact Hp1|]. cbn [h_ms]. rewrite Hs2, Hns2, Hns1.
       apply (ms_inv_weaken _ _ _ _ CB_ge). exact Hs1.
@@ -585,14 +586,14 @@ Proof.
   assert (Hblk : src + size - base (ms_window ms2) <= CURRENT_MAX).
   { destruct Hcase as [[-> Hle]|[Hle _]]; [exact Hle | lia]. }
   (* no btultra2: the search leaves the window alone *)
-  unfold block_search_effect.
+  unfold block_search_effect, block_mode_dict_check. cbn [ms_window ms_loadedDictEnd ms_nextToUpdate ms_dms ms_hashLog3 ms_dds ms_tables].
   assert (H9 : (p_strategy (h_params h) =? ZSTD_btultra2) = false) by (apply Z.eqb_neq; exact Hs9).
   rewrite H9. cbn [andb].
   destruct Hinv2 as (Hl0 & Hld & Hdc & HB & Hnb & Hlde).
   destruct (size <? TINY_BLOCK); cbn [h_ms h_params]; split.
-  all: try (rewrite Hok1, andb_true_l; apply andb_true_iff; split; apply exact_idx_true; cbn [h_ms]; lia).
-  all: unfold InvC; cbn [h_params h_ms]; (split; [exact Hp|]); (split; [exact Hs9|]); (split; [exact Hcorner|]);
-    rewrite Hns2, Hns1; unfold ms_inv; repeat split; lia.
+  all: try (rewrite Hok1, andb_true_l; apply andb_true_iff; split; apply exact_idx_true; cbn [h_ms ms_window]; lia).
+  all: unfold InvC; cbn [h_params h_ms ms_window ms_loadedDictEnd]; (split; [exact Hp|]); (split; [exact Hs9|]); (split; [exact Hcorner|]);
+    rewrite Hns2, Hns1; unfold ms_inv; cbn [ms_window ms_loadedDictEnd]; repeat split; lia.
 Qed.
 
 Lemma chunk_machine_never_overflows_lemma :
